@@ -135,7 +135,7 @@ def batch(prop, tier, sd):
                         d['layout'] = rng.sample(d['layout'], len(d['layout']))
                         out.append(d)
     else:  # C06, C07, C08: fault modes
-        for i in range(18 if quick else 120):
+        for i in range(18 if quick else 60):
             out.append(ds.sources_decl(rng, 's%04d' % i, p_fallible=0.6, nsync=(0 if i % 2 == 1 else None)))
         for i in range(2 if quick else 6):
             out.append(ds.wide_decl(rng, 'w%04d' % i, width=rng.randint(10, 13), p_fallible=0.3, sync_root=(i % 2 == 0)))
@@ -156,7 +156,7 @@ def batch(prop, tier, sd):
                 fl = {i for i in range(4) if rng.random() < (0.5 if prop != 'C07' else 0.3)}
                 if a:
                     out.append(ds.mk_decl('q%03d_%d' % (k, rep_), 4, edges, 3, a, fl))
-        nrand = 40 if quick else 300
+        nrand = 40 if quick else 160
         for i in range(nrand):
             d = ds.random_decl(rng, 'f%04d' % i, nmin=3, nmax=6 if quick else 7,
                                p_fallible=0.5 if prop != 'C07' else 0.3, p_async=0.6,
@@ -354,8 +354,8 @@ def run(prop, tier, sd, rep, clauses, modes):
                                                              json.dumps({'gen': list(gen_fail.items())[:2],
                                                                          'dg': list(dg_fail.items())[:2],
                                                                          'comp': list(comp_fail.items())[:2]})[:3000]))
-            maxruns = int(os.environ.get('VERIF_MAXRUNS', '150' if quick else '600'))
-            gmps = [None] if quick else [None, 1, 4]
+            maxruns = int(os.environ.get('VERIF_MAXRUNS', '150' if quick else ('600' if modes == 'none' else '300')))
+            gmps = [None] if quick else ([None, 1, 4] if modes == 'none' else [None, 2])
 
             # ---- B2: real executions -------------------------------------------------------------------------------
             jobs = [(i, g) for i in ok for g in gmps]
